@@ -1,4 +1,5 @@
 import Golem.Props.C08
+import Golem.Props.C08Gen
 open Golem.Props.C08
 #print axioms queue_refines_fifo
 #print axioms queue_new_empty
@@ -18,3 +19,9 @@ open Golem.Props.C08
 #print axioms no_panic_partial
 #print axioms close_is_clean_eos_partial
 #print axioms cancel_close_race_panics
+#print axioms new_text
+#print axioms newq_text
+#print axioms enq_text
+#print axioms deq_text
+#print axioms head_text
+#print axioms emit_text
